@@ -21,7 +21,7 @@ EXPLANATION = (
     'the ValueSpecBase.apply pipeline (frozen, missing, None tests dominate; '
     '_validate on every path after _apply) and boundary operators of the '
     'range/size validators; (e) unknown keys are rejected before any store.')
-FLOORS = {'C03.a': 11, 'C03.b': 5, 'C03.c': 1, 'C03.d': 4, 'C03.e': 1, 'C03.f': 10, 'C03.g': 1, 'C03.h': 2, 'C03.i': 2, 'C03.j': 2, 'C03.k': 1}
+FLOORS = {'C03.a': 11, 'C03.b': 5, 'C03.c': 1, 'C03.d': 4, 'C03.e': 1, 'C03.f': 10, 'C03.g': 1, 'C03.h': 2, 'C03.i': 2, 'C03.j': 2, 'C03.k': 1, 'C03.l': 1}
 FILES = c08.FILES + ['pyglove/core/typing/value_specs.py',
                      'pyglove/core/typing/class_schema.py']
 
@@ -209,7 +209,7 @@ def _bound_analysis(idx, word):
 
   prim_guarded = _primitive_guards(idx, word)
   prim = idx.lookup_method(S.LIST, S.PRIMITIVE)
-  onchange = idx.lookup_method(S.LIST, '_on_change')
+  onchange = S.list_sweep_function(idx)
   sweep_ok = (word == 'min_size' and prim_guarded and onchange is not None
               and c08.sweeps_only_placeholders(idx, onchange))
 
@@ -249,7 +249,7 @@ SIZE_EXEMPT = {
 def rule_b(ctx):
   idx = ctx.index
   names = list(S.mutators_of('list')) + ['_sym_rebind']
-  for word, extra in (('max_size', []), ('min_size', ['_on_change'])):
+  for word, extra in (('max_size', []), ('min_size', [S.list_sweep_function(idx).name])):
     ga = _bound_analysis(idx, word)
     for name in names + extra:
       f = idx.lookup_method(S.LIST, name)
@@ -298,7 +298,7 @@ def rule_b(ctx):
              'each see the previous ones)', f'{prim.module.relpath}:{k.lineno}',
              'the guard compares len(self), which still contains the placeholders of earlier removals: a batch '
              'of removals takes the list below min_size')
-  oc = idx.lookup_method(S.LIST, '_on_change')
+  oc = S.list_sweep_function(idx)
   if oc is not None and _primitive_guards(idx, 'min_size'):
     ok = c08.sweeps_only_placeholders(idx, oc)
     ctx.ob('C03.b', f'{oc.fq}#sweep', ok,
@@ -463,7 +463,11 @@ def rule_c(ctx):
         for x in k.calls():
           d = A.call_name(x) or ''
           if d.endswith('.apply') and x.args and A.unparse(x.args[0]) in ('{}', 'dict()', '[]', 'list()'):
-            return True
+            # validated under the partial setting the re-application will use: the scoped
+            # flag (base.accepts_partial), not just the object's own
+            ap = A.kwarg(x, 'allow_partial') or (x.args[1] if len(x.args) > 1 else None)
+            if ap is not None and 'accepts_partial' in A.unparse(ap):
+              return True
         return False
       spec_locals = {t.id for k in g.nodes if k.kind == 'stmt' and isinstance(k.ast, ast.Assign)
                      and A.unparse(k.ast.value) == 'self._value_spec' for t in k.ast.targets if isinstance(t, ast.Name)}
@@ -821,6 +825,29 @@ def rule_k(ctx):
     raise AnalysisError('no raw removal outside the Dict primitive found (popitem vanished?)')
 
 
+def rule_l(ctx):
+  """A removal requested by storing the MISSING marker into a List is executed
+  by a sweep.  The sweep must run for notified changes (List._on_change) AND for
+  changes that are not notified (notifications off, skip_notification): the
+  routine base.Symbolic runs for un-notified changes reaches it through a hook
+  List overrides.  Otherwise the list keeps MISSING_VALUE as an element - a
+  state its schema rejects."""
+  idx = ctx.index
+  sweep = S.list_sweep_function(idx)
+  lst = idx.cls(S.LIST)
+  callers = {m.name for m in lst.methods.values() if any(A.call_name(c) == f'self.{sweep.name}' for c in A.calls_in(m.node))}
+  notified = '_on_change' in callers or sweep.name == '_on_change'
+  base_un = idx.find_func('pyglove.core.symbolic.base.Symbolic._sym_reset_content_caches')
+  hooks = set()
+  if base_un is not None:
+    hooks = {c.func.attr for c in A.calls_in(base_un.node) if isinstance(c.func, ast.Attribute)}
+  silent = bool(hooks & callers) or sweep.name in hooks
+  ctx.ob('C03.l', sweep.fq + '#on-every-change', notified and silent,
+         'the sweep of removal placeholders runs for notified and for un-notified changes', sweep.loc,
+         f'reached from List methods {sorted(callers)}; the un-notified routine of base.Symbolic calls {sorted(hooks)}: '
+         f'after rebind({{i: MISSING_VALUE}}, skip_notification=True) the list still holds MISSING_VALUE')
+
+
 def run(ctx):
   ctx.consult(*FILES)
   rule_f(ctx)
@@ -833,5 +860,6 @@ def run(ctx):
   rule_h(ctx)
   rule_j(ctx)
   rule_k(ctx)
+  rule_l(ctx)
   S.typecheck_flag_obligations(ctx, 'C03.i', ['pyglove/core/symbolic/list.py', 'pyglove/core/symbolic/dict.py'], floor=2)
   ctx.assume('acceptance semantics of each spec (what apply accepts) is not decided')
